@@ -16,13 +16,13 @@ CHECKS = {
                 text='Real alg/*.c objects run under ASan+UBSan on every length 0..600 x 3 update partitions, every HMAC key length 0..200, every PBKDF2 dkLen 1..200, every CRC32C (length 0..80, alignment 0..15), random cases and two >2^32-bit streams per hash (chunked and one single update >= 2^29 bytes); each result is compared with an independent implementation. Sampling, not proof: lengths beyond 64 KiB are covered by the long streams only.',
                 note='Trusts Python hashlib/hmac (OpenSSL) as the specification; gcc 12 ASan/UBSan.'),
     'C02': dict(level='exploration', ref='4/C02',
-                technique='runtime monitoring: differential against an independent byte-oriented FIPS-197 / SP 800-38A reference (harness/common/refaes.c, self-checked on the FIPS vectors, spot-checked with openssl enc) under ASan+UBSan, AES-NI build and OpenSSL-software build',
-                text='Seeded random and planned workload: key/block pairs, CTR streams under 3 partitions each (0-length, sub-block and multi-block calls), crypto_aesctr_buf, in-place, encrypt-twice, init2 re-use with and without a new key, streams of >300 and >70,000 blocks (2^24 in thorough) cut around blocks 255/256/65535/65536 on both the incremental and the bulk path.',
-                note='Keys, nonces and partitions are sampled; counter carries above 2^16 blocks run in the thorough tier only; inconclusive if the AES-NI build does not select AES-NI.'),
+                technique='runtime monitoring: differential against an independent byte-oriented FIPS-197 / SP 800-38A reference (harness/common/refaes.c, self-checked on the FIPS vectors, spot-checked with openssl enc) under ASan+UBSan, AES-NI build and OpenSSL-software build; long streams really run across blocks 256 and 65536; far-offset streams are positioned with the LIBCPERCIVA_VERIF hook crypto_aesctr_verif_seek at block 2^e - d (e = 8..56) and cross 2^e with bulk, sub-block and 0-length calls, judged at the absolute block index',
+                text='Seeded random and planned workload: key/block pairs, CTR streams under 3 partitions each (0-length, sub-block and multi-block calls), crypto_aesctr_buf, in-place, encrypt-twice, init2 re-use with and without a new key, streams of >300 and >70,000 blocks (2^24 in thorough) cut around blocks 255/256/65535/65536 on both the incremental and the bulk path, and an exhaustive grid of 317 far-offset streams per build (7 boundaries x 9 start offsets x 5 crossing kinds + one 300..1300-block call per boundary).',
+                note='Keys, nonces and partitions are sampled. Carries above block 2^16 rely on the seek hook (it sets the byte counter and counter block as after n whole blocks; nothing streams that far except a real 2^24-block stream in thorough). Streams stay below block 2^60 (the library\'s 64-bit byte position); block 2^64 is not defined by the statement. Inconclusive if the AES-NI build does not select AES-NI.'),
     'C03': dict(level='exploration', ref='4/C03',
-                technique='runtime monitoring of build variants: the alg/crypto objects compiled in every subset of {SHANI+SSSE3, SSE2, SSE42 32/64, AESNI}, with run-time detectors substituted to answer "absent", without CPUID (39 builds), plus 10 "self-test fails" variants in which the CPU reports the feature but the library\'s own start-up self-test of the implementation is made to fail once through the --wrap wrapper (49 configurations); one seeded workload, N-way comparison plus references; --wrap call counters prove which implementation ran and that a disabled implementation is never used afterwards',
-                text='All 49 configurations executable on this host are enumerated. Inputs are sampled: alignments 0..15; lengths and partitions around the 8/16/64-byte thresholds; AES-CTR streams already in use containing one call of 256..1248 whole blocks followed by sub-block calls, 0-length calls and a tail. Every answer is compared with hashlib/hmac, the CRC algebra and the AES reference and with every other variant. A "Disabling ..." warning is a violation except in the self-test-fails variants, where any call of the disabled implementation after the warning is a violation.',
-                note='ARM paths cannot run on this host. A variant whose intended path never ran (or whose forbidden path ran) makes the result inconclusive, never a pass. The failed self-test is simulated in the harness (the first call of the wrapped entry point carrying the library\'s self-test vector is failed); the CPU is not faulty.'),
+                technique='runtime monitoring of build variants: the alg/crypto objects compiled in every subset of {SHANI+SSSE3, SSE2, SSE42 32/64, AESNI}, with run-time detectors substituted to answer "absent", without CPUID (39 builds), plus 10 "self-test fails" variants in which the CPU reports the feature but the library\'s own start-up self-test of the implementation is made to fail once through the --wrap wrapper (49 configurations); one seeded workload, N-way comparison plus references; --wrap call counters prove which implementation ran and that a disabled implementation is never used afterwards; far-offset AES-CTR streams positioned with the LIBCPERCIVA_VERIF seek hook',
+                text='All 49 configurations executable on this host are enumerated. Inputs are sampled: alignments 0..15; lengths and partitions around the 8/16/64-byte thresholds; AES-CTR streams already in use containing one call of 256..1248 whole blocks followed by sub-block calls, 0-length calls and a tail; one bulk call crossing block 65536; the complete far-offset grid (7 boundaries 2^8..2^56 x 9 offsets x 5 crossing kinds + 7 big calls = 317 streams, 15,533 answers per quick run). Every answer is compared with hashlib/hmac, the CRC algebra and the AES reference and with every other variant. A "Disabling ..." warning is a violation except in the self-test-fails variants, where any call of the disabled implementation after the warning is a violation.',
+                note='ARM paths cannot run on this host. A variant whose intended path never ran (or whose forbidden path ran) makes the result inconclusive, never a pass. The failed self-test is simulated in the harness; the CPU is not faulty. Counters above 2^16 blocks rely on the seek hook; the 2^64 wrap is not exercised.'),
     'C04': dict(level='exploration', ref='4/C04',
                 technique='runtime monitoring: trace checker (vlib/evtrace.py rule set C04) over the API-boundary event log of random register/cancel/reset programs run by the real event loop on a simulated kernel (interposed poll/clock_gettime), invariant hook of events_network.c at every callback and poll entry, ASan+UBSan with real and pass-through pool',
                 text='60,000 (quick) / 800,000 (thorough) random programs, each ending in a drain where every surviving registration must fire exactly once; rules: callback only while registered and at most once, socket callback only after a poll reported the direction ready since registration (or the latest poll reported ERR/HUP), timer never early, EEXIST/ENOENT, the six structural invariants.',
@@ -88,9 +88,9 @@ CHECKS = {
                 text='48k signatures quick, 1.9M thorough over ids/regions/buckets/services/ops/paths of 0..200 unreserved characters, printable-ASCII secrets, bodies absent/empty/1 B..100 KiB, the int expiry range, clock instants 1970..2100; over half the cases use a clock that ticks on every call at a day, leap-day or year boundary.',
                 note='Paths are absolute. The timestamp must be an instant the interposed clock returned, in UTC. Acceptance by the live AWS service is out of scope.'),
     'C20': dict(level='exploration', ref='4/C20',
-                technique='runtime monitoring of the real objects in -O2, -O1+ASan/UBSan and (thorough) -O2 -flto builds, with and without AES-NI: context bytes read back after every *_Final; a free-time hook (under malloc/free via --wrap and under OpenSSL via CRYPTO_set_mem_functions) searches every released block for independently derived secret images; for the DH operations additionally allocation-fault enumeration: every allocation OpenSSL requests during generate_pub/compute/generate is refused in turn (one per run) with the same free-time scan active',
-                text='Every message length 0..300 (thorough 0..600) for 3 hashes and 3 HMACs on heap and stack; random AES keys with expand/encrypt/free; random AES-CTR scripts incl. init2 re-use; DH with random and extreme x and blinding and entropy failures; DH error paths: for 48 (thorough 2400) (x, r, peer) triples per build each of the N counted OpenSSL allocations (56 generate_pub, up to 66 compute) is refused once, about 2,900 (thorough about 145,000) faulted runs per build; eleven failing key-file shapes. Each case carries a positive control (an unwiped block must be reported), else inconclusive.',
-                note='Speaks only for the gcc builds that ran; quick omits -flto. Fault enumeration is single-fault and covers the allocation sites of the installed OpenSSL for the sampled inputs. Not observable and not claimed: contexts inside *_Buf helpers and PBKDF2, stack buffers (incl. blinding[] in blinded_modexp), libc\'s stdio buffer.'),
+                technique='runtime monitoring of the real objects in -O2, -O1+ASan/UBSan and (thorough) -O2 -flto builds, with and without AES-NI: context bytes read back after every *_Final with the context at every legal alignment (heap and stack); direct sweep of insecure_memzero over every length x offset; a free-time hook (under malloc/free via --wrap, with an opt-in allocator mode handing out blocks that are 8 mod 16, and under OpenSSL via CRYPTO_set_mem_functions) searches every released block for independently derived secret images; allocation-fault enumeration of the DH operations (each OpenSSL allocation refused in turn)',
+                text='Every message length 0..300 (thorough 0..600) for 3 hashes and 3 HMACs, contexts on heap and stack at every legal placement (0/8 resp. 0/4/8/12 bytes past a 16-byte boundary); insecure_memzero on every length 0..130 (thorough 0..600) x offset 0..15 x heap/exact/stack; random AES keys expand/encrypt/free, each with 16-aligned and with 8-mod-16 blocks, key bytes searched in 8-byte windows; random AES-CTR scripts incl. init2 re-use; DH with random and extreme x and blinding, entropy failures, and every OpenSSL allocation of 48 (thorough 2400) triples per build refused once; eleven failing key-file shapes. Each case carries a positive control, else inconclusive.',
+                note='Speaks only for the gcc builds that ran; quick omits -flto. Freed blocks are required to be free of secret bytes (>= 8-byte windows for AES keys and text, >= 16 otherwise), not to be all zero. DH fault enumeration is single-fault over the installed OpenSSL\'s allocation sites. Not observable and not claimed: contexts inside *_Buf helpers and PBKDF2, stack buffers, libc\'s stdio buffer.'),
 }
 
 NOT_BUILT_REASON = 'check not built yet in this revision of /verif (planned, see DESIGN.md section 4)'
